@@ -94,6 +94,12 @@ BNOTES = {
     "B15/12": "kept, same class as B01/9: the `match` around `rio_format_triples` and both `finish()` calls moved into a private helper function "
               "(`close_document`); R15.14 and C18's pairing rule are intra-procedural and fail closed (the formatter's `finish` is no longer in the function that "
               "feeds it)",
+    "B14/11": "kept, same class as B01/9: the recursion of `cmp_bindings_with` on the rest of the criteria rewritten as a `for` loop with an early return; R14.1 reads the "
+              "audited recursive shape (`o.then_with(|| cmp_bindings_with(.., rest, ..))`) with a loop-free path enumerator and fails closed on the loop form",
+    "B14/15": "kept: the four lexical forms of xsd:boolean compared with `==` on `&str` instead of a string-pattern `match`; rustc promotes `&\"true\"` to a `&&str` constant, "
+              "which the fact extractor does not decode (kind `ptr`), so R14.4 cannot read the constants and fails closed - a limitation of E1, not of the rule",
+    "B06/11": "kept, same class as B01/9: the fixed escapes of `_cnq::nq` moved into a private helper function (`fixed_escape`); R6.1 evaluates the escaping decision of "
+              "`nq` itself for representative code points and does not follow calls",
     "B09/7": "kept, and not a false alarm about the code: a *known finding* (the unwrap of the resolver's Result) moved into a helper function and is "
              "reported under its new location - known findings are suppressed by exact key only",
 }
@@ -118,7 +124,7 @@ repository's suite green (recorded in its `meta.json`).  `tools/run_benign.py` a
 worktree of the repaired tree and runs **all** registered checks: a new violation key is a false alarm.
 The first batch (95) consists of free refactorings of the anchor files; the second (45, k = 6..10) was written inside the functions
 the hunt-round rules look at, with shape-changing edits (§6); the third (25, `"round": 3`) inside the functions of the rules written after the second and
-third hunts.
+third hunts; the fourth (25, `"round": 4`) inside the functions of the second-hunt rules that no targeted batch had visited (C01, C02, C06, C07, C14).
 Current result: %d of %d raise an alarm (explained in the table).  Of the first batch, thirteen variants raised one at some point; each was corrected by generalising
 the idiom the rule recognises, never by loosening the rule: a kind predicate spelled `==` instead of `matches!` (C12,
 now decided per kind by `kind_predicate`); `?` replaced by `match .. Ok(true)/Ok(false)/Err` (C01 R1.7, C09
